@@ -346,6 +346,9 @@ func toKey(rv reflect.Value) (any, error) {
 	case reflect.Interface:
 		return toKey(rv.Elem())
 
+	case reflect.Invalid:
+		return 0, fmt.Errorf("cose/key: toKey: invalid value nil")
+
 	default:
 		return 0, fmt.Errorf("cose/key: toKey: invalid value type %T", rv.Interface())
 	}
